@@ -315,6 +315,15 @@ def compute_ir(
         for i, expr in enumerate(analysis.expressions)
     ]
 
+    # The names objects are known by in the UFL file become global C names
+    aliases = [obj.name_from_uflfile for obj in ir_forms + ir_expressions]
+    duplicates = sorted({name for name in aliases if aliases.count(name) > 1})
+    if duplicates:
+        raise ValueError(
+            f"Several objects would be named {', '.join(duplicates)} "
+            "(the same form or expression is listed more than once)."
+        )
+
     return DataIR(
         integrals=ir_integrals,
         forms=ir_forms,
